@@ -77,6 +77,11 @@ def run_events(rep, tvs: list, owned: set, *, label: str, make_event=conv.ev_fro
         for ident, clauses in bad.items():
             mine = sorted(cl for cl in clauses if cl in owned)
             if not mine:
+                # clauses nobody owns here (another property's, or the informational model-drift clause): counted only
+                stats['events_with_clauses_not_owned_here'] = stats.get('events_with_clauses_not_owned_here', 0) + 1
+                ex = stats.setdefault('examples_not_owned_here', [])
+                if len(ex) < 5:
+                    ex.append({'type': vocab.type_repr(cases[ident].ty)[:200], 'clauses': sorted(clauses)})
                 continue
             c = cases[ident]
             info[ident] = (c, evs[ident], mine)
